@@ -154,4 +154,12 @@ theorem calcTransport_WriteByte_unchanged : Facts.calcTransport_WriteByte = ["fu
 
 theorem calcTransport_WriteString_unchanged : Facts.calcTransport_WriteString = ["func(s string) (int, error)", "p.count += int32(len(s))", "return len(s), nil"] := rfl
 
+theorem body_m3__NewReporter_unchanged : Facts.body_m3__NewReporter = ["func(opts Options) (Reporter, error)", "if opts.MaxQueueSize <= 0 { opts.MaxQueueSize = DefaultMaxQueueSize }", "if opts.MaxPacketSizeBytes <= 0 { opts.MaxPacketSizeBytes = DefaultMaxPacketSize }", "if opts.HistogramBucketIDName == \"\" { opts.HistogramBucketIDName = DefaultHistogramBucketIDName }", "if opts.HistogramBucketName == \"\" { opts.HistogramBucketName = DefaultHistogramBucketName }", "if opts.HistogramBucketTagPrecision == 0 { opts.HistogramBucketTagPrecision = DefaultHistogramBucketTagPrecision }", "var trans thrift.TTransport", "var err error", "if len(opts.HostPorts) == 0 { err = errNoHostPorts } else if len(opts.HostPorts) == 1 { trans, err = thriftudp.NewTUDPClientTransport(opts.HostPorts[0], \"\") } else { trans, err = thriftudp.NewTMultiUDPClientTransport(opts.HostPorts, \"\") }", "if err != nil { return nil, err }", "var protocolFactory thrift.TProtocolFactory", "if opts.Protocol == Compact { protocolFactory = thrift.NewTCompactProtocolFactory() } else { protocolFactory = thrift.NewTBinaryProtocolFactoryDefault() }", "var ( client = m3thrift.NewM3ClientFactory(trans, protocolFactory) resourcePool = newResourcePool(protocolFactory) tagm = make(map[string]string) tags = resourcePool.getMetricTagSlice() )", "for k, v := range opts.CommonTags", "| tagm[k] = v", "if opts.CommonTags[ServiceTag] == \"\" { if opts.Service == \"\" { return nil, fmt.Errorf(\"%s common tag is required\", ServiceTag) } tagm[ServiceTag] = opts.Service }", "if opts.CommonTags[EnvTag] == \"\" { if opts.Env == \"\" { return nil, fmt.Errorf(\"%s common tag is required\", EnvTag) } tagm[EnvTag] = opts.Env }", "if opts.IncludeHost { if opts.CommonTags[HostTag] == \"\" { hostname, err := os.Hostname() if err != nil { return nil, errors.WithMessage(err, \"error resolving host tag\") } tagm[HostTag] = hostname } }", "for k, v := range tagm", "| tags = append(tags, m3thrift.MetricTag{ Name: k, Value: v, })", "var ( batch = m3thrift.MetricBatch{ Metrics: resourcePool.getMetricSlice(), CommonTags: tags, } proto = resourcePool.getProto() )", "if err := batch.Write(proto); err != nil { return nil, errors.WithMessage( err, \"failed to write to proto for size calculation\", ) }", "resourcePool.releaseMetricSlice(batch.Metrics)", "var ( calc = proto.Transport().(*customtransport.TCalcTransport) numOverheadBytes = _emitMetricBatchOverhead + calc.GetCount() freeBytes = opts.MaxPacketSizeBytes - numOverheadBytes )", "calc.ResetCount()", "if freeBytes <= 0 { return nil, errCommonTagSize }", "buckets := tally.ValueBuckets(append( []float64{0.0}, tally.MustMakeExponentialValueBuckets(2.0, 2.0, 11)..., ))", "r := &reporter{ buckets: tally.BucketPairs(buckets), bucketIDTagName: opts.HistogramBucketIDName, bucketTagName: opts.HistogramBucketName, bucketValFmt: \"%.\" + strconv.Itoa(int(opts.HistogramBucketTagPrecision)) + \"f\", calc: calc, calcProto: proto, client: client, commonTags: tags, donech: make(chan struct{}), freeBytes: freeBytes, metCh: make(chan sizedMetric, opts.MaxQueueSize), overheadBytes: numOverheadBytes, resourcePool: resourcePool, stringInterner: cache.NewStringInterner(), tagCache: cache.NewTagCache(), }", "internalTags := map[string]string{ \"version\": tally.Version, \"host\": tally.DefaultTagRedactValue, \"instance\": tally.DefaultTagRedactValue, }", "for k, v := range opts.InternalTags", "| internalTags[k] = v", "r.now.Store(time.Now().UnixNano())", "r.batchSizeHistogram = r.AllocateHistogram(\"tally.internal.batch-size\", internalTags, buckets)", "r.numBatchesCounter = r.AllocateCounter(\"tally.internal.num-batches\", internalTags)", "r.numMetricsCounter = r.AllocateCounter(\"tally.internal.num-metrics\", internalTags)", "r.numWriteErrorsCounter = r.AllocateCounter(\"tally.internal.num-write-errors\", internalTags)", "r.numTagCacheCounter = r.AllocateCounter(\"tally.internal.num-tag-cache\", internalTags)", "r.wg.Add(1)", "go func() { defer r.wg.Done() r.process() }()", "r.wg.Add(1)", "go func() { defer r.wg.Done() r.timeLoop() }()", "return r, nil"] := rfl
+
+theorem body_m3__newResourcePool_unchanged : Facts.body_m3__newResourcePool = ["func(protoFac thrift.TProtocolFactory) *resourcePool", "metricSlicePool := tally.NewObjectPool(batchPoolSize)", "metricSlicePool.Init(func() interface{} { return make([]m3thrift.Metric, 0, batchPoolSize) })", "metricTagSlicePool := tally.NewObjectPool(DefaultMaxQueueSize)", "metricTagSlicePool.Init(func() interface{} { return make([]m3thrift.MetricTag, 0, batchPoolSize) })", "protoPool := tally.NewObjectPool(protoPoolSize)", "protoPool.Init(func() interface{} { return protoFac.GetProtocol(&customtransport.TCalcTransport{}) })", "return &resourcePool{ metricSlicePool: metricSlicePool, metricTagSlicePool: metricTagSlicePool, protoPool: protoPool, }"] := rfl
+
+theorem body_m3_reporter_calculateSize_unchanged : Facts.body_m3_reporter_calculateSize = ["func(m m3thrift.Metric) int32", "r.calcLock.Lock()", "m.Write(r.calcProto)", "size := r.calc.GetCount()", "r.calc.ResetCount()", "r.calcLock.Unlock()", "return size"] := rfl
+
+theorem body_m3_resourcePool_getProto_unchanged : Facts.body_m3_resourcePool_getProto = ["func() thrift.TProtocol", "o := r.protoPool.Get()", "return o.(thrift.TProtocol)"] := rfl
+
 end Tally.Tie.C16Frozen
